@@ -284,3 +284,51 @@ def known_findings():
 
 def rng(seed, salt):
     return random.Random(f'{seed}:{salt}')
+
+
+# ------------------------------------------------------------------ extracted model (OCaml)
+EXTRACT = os.path.join(COQ, 'extract')
+
+
+def build_armsim(timeout=900):
+    """extract the regenerated model and compile the driver; returns (ok, log).  Rebuilt only when
+    gen/step.vo is newer than the binary."""
+    binp = os.path.join(BUILD, 'armsim')
+    stepvo = os.path.join(GEN, 'step.vo')
+    srcs = [stepvo, os.path.join(EXTRACT, 'Extract.v'), os.path.join(EXTRACT, 'driver.ml'),
+            os.path.join(COQ, 'theories', 'Lib', 'Enc.vo')]
+    if not all(os.path.exists(s) for s in srcs):
+        return False, 'model not built'
+    if os.path.exists(binp) and all(os.path.getmtime(binp) >= os.path.getmtime(s) for s in srcs):
+        return True, 'up to date'
+    work = os.path.join(BUILD, 'extract')
+    os.makedirs(work, exist_ok=True)
+    for f in ('Extract.v', 'driver.ml'):
+        with open(os.path.join(EXTRACT, f)) as a, open(os.path.join(work, f), 'w') as b:
+            b.write(a.read())
+    rc, out, err, dt = run(['coqc', '-Q', os.path.join(COQ, 'theories'), 'ArmV', '-Q', GEN, 'Gen', 'Extract.v'],
+                           timeout, cwd=work)
+    if rc != 0:
+        return False, out + err
+    rc, out, err, dt = run(['ocamlfind', 'ocamlopt', '-O2', '-w', '-a', 'armsim.mli', 'armsim.ml', 'driver.ml',
+                            '-o', binp], timeout, cwd=work)
+    return rc == 0, out + err
+
+
+def armsim_run(lines, timeout=3000):
+    """lines: list of strings for the driver; returns list of int lists (None on failure)"""
+    binp = os.path.join(BUILD, 'armsim')
+    env = dict(os.environ)
+    p = subprocess.run(['bash', '-c', f'ulimit -s unlimited; exec {binp}'], input='\n'.join(lines) + '\n',
+                       capture_output=True, text=True, timeout=timeout, env=env)
+    outs = p.stdout.split('\n')
+    res = []
+    for i in range(len(lines)):
+        if i < len(outs) and outs[i].strip() != '':
+            try:
+                res.append([int(x) for x in outs[i].split()])
+            except ValueError:
+                res.append(None)
+        else:
+            res.append(None)
+    return res
